@@ -1,7 +1,7 @@
 import os
 import core
 
-STREAMS = ["c01", "c01l3"]
+STREAMS = ["c01", "c01l3", "c01gw"]
 NEEDS_BINARY = True
 HARNESS_ARGS = ("-rdpgw", os.path.join(core.BUILD, "rdpgw"))
 RULE = ("(a) exhaustive small scope: every valid prefix (0..5 steps) followed by every continuation of length <= 2 (quick) / 3 "
@@ -18,7 +18,7 @@ ASSUMPTIONS = ["bytes received by the backend are attributed to the earliest poi
 
 
 def nontrivial(c):
-    return " R" in (" " + c.impl)
+    return c.kind == "inagain" or " R" in (" " + c.impl)
 
 
 def signature(c):
